@@ -184,7 +184,32 @@ def unhoist_function(fn, ref_fn):
                 while isinstance(cur, ast.Subscript):
                     cur = cur.value
                 if isinstance(cur, ast.Attribute) and ast.unparse(cur) in attr_st and isinstance(val, ast.Attribute):
-                    ok = False
+                    # ... unless every such assignment comes after the last read of the local (and no loop brings it back
+                    # before one): `d = self._x ... use(d) ... self._x = new`
+                    path = ast.unparse(cur)
+                    last_use = max(x.lineno for x in loads)
+                    for st_ in ast.walk(fn):
+                        if isinstance(st_, (ast.Attribute, ast.Subscript)) and not isinstance(st_.ctx, ast.Load):
+                            b_ = st_
+                            while isinstance(b_, ast.Subscript):
+                                b_ = b_.value
+                            if not (isinstance(b_, ast.Attribute) and ast.unparse(b_) == path and b_ is st_):
+                                continue
+                            stmt_ = st_
+                            while stmt_ in pm and not isinstance(stmt_, ast.stmt):
+                                stmt_ = pm[stmt_]
+                            in_stmt = {id(x) for x in ast.walk(stmt_)}
+                            # reads inside the assigning statement itself happen before the assignment
+                            if stmt_.lineno > n.lineno and any(id(u) not in in_stmt and u.lineno > stmt_.lineno for u in loads):
+                                ok = False
+                            c_ = st_
+                            while c_ in pm:
+                                c_ = pm[c_]
+                                if isinstance(c_, (ast.For, ast.While)):
+                                    inside_def = any(x is n for x in ast.walk(c_))
+                                    inside_use = any(x is u for u in loads for x in ast.walk(c_))
+                                    if inside_use and not inside_def:
+                                        ok = False
                 if ok:
                     s = _Sub(v, val)
                     s.visit(fn)
